@@ -956,6 +956,10 @@ def tree_pool(tier):
     return out
 
 
+SIB_DECLS = ["IN_SEL", "INPut:GAIN", "INIT", "IN1?", "IN_SEL?", "OUT_ENable", "OUTPut:STATe", "OUT2", "OUTA?", "MEASure?", "ME_as", "MEAN?",
+             "Z_", "ZA", "Z1", "Z_A?", "SYS:IN_SEL", "SYS:INPut", "SYS:INIT?", "SYS:IN1", "SYS:OUT_ENable?", "SYS:OUTPut", "SYS:Z_", "SYS:ZA", "SYS:Z1?"]
+
+
 def pool_decl_tla(cmd):
     return T.decl_record({"cmd": cmd, "args": [], "beh": {"k": "ok"}})
 
@@ -1070,6 +1074,11 @@ def tree_check(prop, tier):
         if key(x) not in seen and len(ctl) < K_ctl + len(twins):
             seen.add(key(x))
             ctl.append(x)
+    # a fixed sibling-rich set: many children of one node whose names differ in '_', digits and letters at the same position
+    pool2 = pool + SIB_DECLS
+    sib = {"chosen": list(range(len(pool) + 1, len(pool2) + 1)), "std": False, "err": True}
+    ctl.append(sib)
+    pool = pool2
     # phase 2: test headers of the control sets
     emitted = []
     s.model("MCScpiTree", tree_params(pool, md if tier == "quick" else 3, "emit", [(x["chosen"], x["std"], x["err"]) for x in ctl]),
@@ -1168,7 +1177,7 @@ def tree_check(prop, tier):
         tests = sorted(x["tests"])
         s.rng.shuffle(tests)
         decl_paths = set()
-        lim = 120 if tier == "quick" else 250
+        lim = (120 if tier == "quick" else 250) if len(x["chosen"]) < 10 else 4000
         for p in tests[:lim]:
             for q in (False, True):
                 for h in header_variants(s.rng, p, q, False):
